@@ -1,7 +1,7 @@
 (* C16 -- digests, HMAC and CBC ciphers compute the standard functions for all inputs.
    Only property theorems here, each closed by `exact <lemma>`; proofs are in the other files of coq/C16.
    Bytes are N, byte strings list N, a message is fed as a list of chunks (one per append call). *)
-From CppcmsV Require Import Base.Tac C16.Defs C16.Blocks C16.ProofsMd5 C16.ProofsMd5Fin C16.ProofsSha1 C16.ProofsSha1Fips C16.ProofsHmac C16.ProofsCbc C16.ProofsSess.
+From CppcmsV Require Import Base.Tac C16.Defs C16.Blocks C16.ProofsMd5 C16.ProofsMd5Fin C16.ProofsSha1 C16.ProofsSha1Fips C16.ProofsHmac C16.ProofsCbc C16.ProofsCbcObj C16.ProofsSess C16.AesDefs C16.ProofsAes C16.ProofsAesInv C16.ProofsAesSess C16.Sha2Defs.
 Local Open Scope N_scope.
 
 (* ---------------------------------------------------------------------------------------------
@@ -265,11 +265,78 @@ Proof. vm_compute. repeat split; reflexivity. Qed.
    6. the wrappers around the primitives: which calls a cbc object serves, name dispatch
    --------------------------------------------------------------------------------------------- *)
 (* encrypt/decrypt after any sequence of calls is served iff a key of exactly key_size() bytes and an IV
-   (16 bytes, or a nonce IV) were given at some point before; otherwise it is refused (no output is produced) *)
-Theorem cbc_served_iff_key_and_iv : forall ks before,
+   (16 bytes, or a nonce IV) were given at some point before; otherwise it is refused (no output is produced).
+   key_size() is 16, 24 or 32: 0 < ks *)
+Theorem cbc_served_iff_key_and_iv : forall ks before, 0 < ks ->
   fst (cbc_ctl_step ks (cbc_ctl_state ks (false, false) before) OpEnc) = StOk <-> (keyed ks before = true /\ ived before = true).
 Proof. exact cbc_ctl_served. Qed.
 Print Assumptions cbc_served_iff_key_and_iv.
+(* once a key is in place, every further set_key - whatever the size of the key it offers - is answered with the
+   set-key-twice error and changes nothing; and that answer is given to nothing else *)
+Theorem cbc_second_set_key_refused : forall ks i n, cbc_ctl_step ks (true, i) (OpKey n) = (StKeyTwice, (true, i)).
+Proof. exact cbc_ctl_key_twice. Qed.
+Print Assumptions cbc_second_set_key_refused.
+Theorem cbc_set_key_twice_answer_only_then : forall ks st op,
+  fst (cbc_ctl_step ks st op) = StKeyTwice -> fst st = true /\ exists n, op = OpKey n.
+Proof. exact cbc_ctl_key_twice_only. Qed.
+Print Assumptions cbc_set_key_twice_answer_only_then.
+
+(* The whole object, key material included (obj_step: key_, the lazily expanded key_enc_ / key_dec_, iv_initialized_, the two
+   running IVs), over ANY family of block functions E k, Dc k and for EVERY sequence of set_key / set_iv / set_nonce_iv /
+   encrypt / decrypt calls with any operands, from a new object: its answers - status of every call and the bytes of every
+   encrypt / decrypt - are those of an object that was given ONE key at birth, namely the first offered key of the right size.
+   No premise about the order of calls, about when the key schedules are expanded or about the offered keys: every
+   encrypt/decrypt that is served is CBC under that one key. *)
+Theorem cbc_object_uses_the_one_key_it_was_given : forall (E Dc : list N -> list N -> list N) ks, 0 < ks -> forall ops,
+  obj_run E Dc ks obj_new ops = ref_run E Dc ks (first_key ks ops) ref_new ops.
+Proof. exact obj_refines_ref. Qed.
+Print Assumptions cbc_object_uses_the_one_key_it_was_given.
+(* the key bytes (and sizes) offered by set_key calls after the first accepted one cannot influence any answer *)
+Theorem cbc_object_later_keys_irrelevant : forall (E Dc : list N -> list N -> list N) ks, 0 < ks -> forall a b,
+  same_but_later_keys ks false a b -> obj_run E Dc ks obj_new a = obj_run E Dc ks obj_new b.
+Proof. exact (fun E Dc ks H a b => obj_later_keys_irrelevant E Dc ks H a b false (mk_cbc (repeat 0 16) (repeat 0 16))). Qed.
+Print Assumptions cbc_object_later_keys_irrelevant.
+(* the statuses of the whole object are those of the status machine (the part that is extracted and run against the
+   implementation) on the shapes of the operations *)
+Theorem cbc_object_statuses : forall (E Dc : list N -> list N -> list N) ks ops,
+  map fst (obj_run E Dc ks obj_new ops) = cbc_ctl_run ks (false, false) (map op_shape ops).
+Proof. exact (fun E Dc ks ops => obj_run_statuses E Dc ks ops obj_new). Qed.
+Print Assumptions cbc_object_statuses.
+(* cbc::create(name) only makes objects with key_size() 16, 24 or 32: the premise 0 < ks above always holds *)
+Theorem cbc_by_name_key_sizes : forall n ks, cbc_by_name n = Some ks -> (ks = 16 \/ ks = 24 \/ ks = 32) /\ 0 < ks.
+Proof. exact cbc_by_name_sizes. Qed.
+Print Assumptions cbc_by_name_key_sizes.
+(* two nodes: one object is keyed, given the IV and encrypts in any number of calls (a later set_key with any other key K2 in
+   between is refused and harmless); another object with the same key and IV decrypts the ciphertext in any other split
+   into whole-block calls: the plaintext comes back *)
+Theorem cbc_object_two_nodes_roundtrip : forall (E Dc : list N -> list N -> list N) ks, 0 < ks ->
+  (forall k b, length b = 16%nat -> length (E k b) = 16%nat) ->
+  (forall k b, length b = 16%nat -> Dc k (E k b) = b) ->
+  forall K K2 iv pcalls ccalls,
+  len K = ks -> length iv = 16%nat ->
+  Forall (fun p => (length p mod 16 = 0)%nat) pcalls -> Forall (fun c => (length c mod 16 = 0)%nat) ccalls ->
+  concat ccalls = outputs (obj_run E Dc ks obj_new (OKey K :: OIv iv :: OKey K2 :: map (@OEnc) pcalls)) ->
+  outputs (obj_run E Dc ks obj_new (OKey K :: OIv iv :: map (@ODec) ccalls)) = concat pcalls.
+Proof. exact obj_two_nodes_roundtrip. Qed.
+Print Assumptions cbc_object_two_nodes_roundtrip.
+(* regression example for the repaired defect (src/aes.cpp set_key built the set-key-twice error without throwing it; the
+   second key replaced key_ while the expanded schedules stayed those of the first): toy cipher "add the first key byte".
+   set_key k1, set_iv, encrypt, set_key k2, set_iv, encrypt: the second set_key is refused, both encryptions give the same
+   ciphertext (that of k1), and an object holding k1 decrypts it; under k2 the ciphertext would be different. *)
+Example cbc_object_rekey_regression :
+  let E := fun k => map (fun b => (b + hd 0 k) mod 256) in
+  let Dc := fun k => map (fun b => (b + 256 - hd 0 k mod 256) mod 256) in
+  let k1 := repeat 3 16 in let k2 := repeat 9 16 in
+  let iv := map N.of_nat (seq 100 16) in
+  let p := map N.of_nat (seq 0 16) in
+  let c := fst (cbc_enc (E k1) iv p) in
+  obj_run E Dc 16 obj_new [OKey k1; OIv iv; OEnc p; OKey k2; OIv iv; OEnc p] =
+    [(StOk, []); (StOk, []); (StOk, c); (StKeyTwice, []); (StOk, []); (StOk, c)] /\
+  obj_run E Dc 16 obj_new [OKey k1; OIv iv; ODec c] = [(StOk, []); (StOk, []); (StOk, p)] /\
+  fst (cbc_enc (E k2) iv p) <> c /\
+  first_key 16 [OKey (repeat 1 15); OEnc p; OKey k1; OKey k2] = k1 /\
+  obj_run E Dc 16 obj_new [OKey k2; OKey k1; OKey []; OKey (repeat 1 17)] = [(StOk, []); (StKeyTwice, []); (StKeyTwice, []); (StKeyTwice, [])].
+Proof. vm_compute. repeat split; try reflexivity. discriminate. Qed.
 (* create_by_name is case-insensitive, answers with the canonical name, and every digest it can return has
    digest_size <= block_size in {64,128} - the premise dsz <= B of hmac_rfc2104 *)
 Theorem digest_by_name_case_insensitive : forall n, digest_by_name (map lower n) = digest_by_name n.
@@ -281,7 +348,9 @@ Proof. exact digest_by_name_table. Qed.
 Print Assumptions digest_by_name_sizes.
 Example wrappers_nonvacuous :
   digest_by_name [83;72;65;51;56;52] = Some ([115;104;97;51;56;52], 48, 128) /\ digest_by_name [109;100;52] = None /\
-  cbc_ctl_run 16 (false, false) [OpEnc; OpKey 15; OpKey 16; OpDec; OpIv 16; OpEnc] = [StNoKey; StBadKeySize; StOk; StNoIv; StOk; StOk].
+  cbc_by_name [65;69;83;45;50;53;54] = Some 32 /\ cbc_by_name [97;101;115] = Some 16 /\ cbc_by_name [65;101;115;49;50;56] = None /\
+  cbc_ctl_run 16 (false, false) [OpEnc; OpKey 15; OpKey 16; OpDec; OpIv 16; OpEnc; OpKey 16; OpKey 0; OpEnc] =
+    [StNoKey; StBadKeySize; StOk; StNoIv; StOk; StOk; StKeyTwice; StKeyTwice; StOk].
 Proof. vm_compute. repeat split; reflexivity. Qed.
 
 (* ---------------------------------------------------------------------------------------------
@@ -324,4 +393,119 @@ Example session_nonvacuous :
   fst (ac_decrypt mac 1 Dc (repeat 7 16) c) = Some [104;101;108;108;111] /\
   fst (ac_decrypt mac 1 Dc (repeat 7 16) (removelast c ++ [0])) = None /\
   hc_decrypt mac 1 (hc_encrypt mac [1;2;3]) = Some [1;2;3] /\ hc_decrypt mac 1 [1;2;3;7] = None.
+Proof. vm_compute. repeat split; reflexivity. Qed.
+
+(* ---------------------------------------------------------------------------------------------
+   8. the block cipher itself, written from FIPS-197 (coq/C16/AesDefs.v: field arithmetic, S-box by formula, key expansion for
+      the three key sizes, Cipher and InvCipher).  AES is library code for /repo (OpenSSL); this instance makes the extracted
+      cbc object model compute the very bytes the wrapper of src/aes.cpp must produce (correspondence on cbc / cbcobj cases).
+   --------------------------------------------------------------------------------------------- *)
+(* InvCipher inverts Cipher: for EVERY key of at least four bytes (16, 24 and 32 are in use) and EVERY block of 16 bytes.
+   Proof: S-box and inverse S-box by a 256-point sweep, ShiftRows by computation, InvMixColumns o MixColumns by linearity of
+   the six constant multiplications (65536-point sweeps) and sixteen single-byte identities, the round structure by induction
+   over ANY list of well-formed round keys, well-formedness of the expanded key by induction over the expansion loop. *)
+Theorem aes_invcipher_inverts_cipher : forall key b,
+  Forall (fun x => x < 256) key -> (4 <= length key)%nat -> length b = 16%nat -> Forall (fun x => x < 256) b ->
+  aes_dec key (aes_enc key b) = b /\ length (aes_enc key b) = 16%nat /\ Forall (fun x => x < 256) (aes_enc key b).
+Proof. exact aes_inverse_lemma. Qed.
+Print Assumptions aes_invcipher_inverts_cipher.
+(* the property sentence itself, closed, for the FIPS-197 cipher: AES-CBC decryption after encryption with the same key and
+   IV is the identity on whole blocks (and both sides end with the same running IV) *)
+Theorem aes_cbc_decrypt_inverts_encrypt : forall key iv p,
+  Forall (fun x => x < 256) key -> (4 <= length key)%nat ->
+  length iv = 16%nat -> Forall (fun x => x < 256) iv -> (length p mod 16 = 0)%nat -> Forall (fun x => x < 256) p ->
+  cbc_dec (aes_D key) iv (fst (cbc_enc (aes_E key) iv p)) = (p, snd (cbc_enc (aes_E key) iv p)).
+Proof. exact aes_cbc_inverse_lemma. Qed.
+Print Assumptions aes_cbc_decrypt_inverts_encrypt.
+(* two nodes with the real cipher, whole objects (set_key, set_iv, a refused later set_key K2 of any bytes, encrypt calls on one
+   object; set_key, set_iv, decrypt calls in ANY other split on the other): no hypotheses left *)
+Theorem aes_cbc_objects_two_nodes_roundtrip : forall ks K K2 iv pcalls ccalls,
+  4 <= ks -> len K = ks -> Forall (fun x => x < 256) K -> length iv = 16%nat -> Forall (fun x => x < 256) iv ->
+  Forall (fun p => (length p mod 16 = 0)%nat) pcalls -> Forall (fun x => x < 256) (concat pcalls) ->
+  Forall (fun c => (length c mod 16 = 0)%nat) ccalls ->
+  concat ccalls = outputs (aes_obj_run ks (OKey K :: OIv iv :: OKey K2 :: map (@OEnc) pcalls)) ->
+  outputs (aes_obj_run ks (OKey K :: OIv iv :: map (@ODec) ccalls)) = concat pcalls.
+Proof. exact aes_two_nodes_lemma. Qed.
+Print Assumptions aes_cbc_objects_two_nodes_roundtrip.
+(* the session cookie cipher of aes_encryptor.cpp with the REAL block cipher: what one aes_cipher object writes (running IV iv1 of
+   its cbc object, whatever nonce it drew), every other object with the same keys reads back (its own running IV iv2).
+   aes_cipher_roundtrip_any_ivs above asks D(E b) = b of all lists; here the cipher is FIPS-197 and nothing is assumed of it.
+   First for any MAC function with dsz-byte digests, then closed for HMAC-SHA1 under any mac key (the configuration
+   aes_factory(algo, key) sets up), hmac_spec being the function the hmac object is proved to compute (hmac_sha1_rfc2104). *)
+Theorem aes_cipher_roundtrip_real_cipher : forall (mac : list N -> list N) (dsz : nat),
+  (forall m, length (mac m) = dsz) ->
+  forall key, Forall (fun x => x < 256) key -> (4 <= length key)%nat ->
+  forall iv1 iv2 p, length iv1 = 16%nat -> Forall (fun x => x < 256) iv1 -> length iv2 = 16%nat ->
+  Forall (fun x => x < 256) p -> len p < 4294967296 ->
+  fst (ac_decrypt mac dsz (aes_D key) iv2 (fst (ac_encrypt mac (aes_E key) iv1 p))) = Some p.
+Proof. exact ac_roundtrip_aes. Qed.
+Print Assumptions aes_cipher_roundtrip_real_cipher.
+Theorem session_cookie_aes_hmac_sha1_roundtrip : forall ck mk iv1 iv2 p,
+  Forall (fun x => x < 256) ck -> (4 <= length ck)%nat -> length iv1 = 16%nat -> Forall (fun x => x < 256) iv1 ->
+  length iv2 = 16%nat -> Forall (fun x => x < 256) p -> len p < 4294967296 ->
+  let mac := hmac_spec 64 sha1_spec mk in
+  fst (ac_decrypt mac 20 (aes_D ck) iv2 (fst (ac_encrypt mac (aes_E ck) iv1 p))) = Some p.
+Proof. exact cookie_aes_hmac_sha1. Qed.
+Print Assumptions session_cookie_aes_hmac_sha1_roundtrip.
+(* FIPS-197 appendix C.1 - C.3 in both directions, last round key of appendix A.1 *)
+Example aes_fips197_vectors :
+  aes_enc (map N.of_nat (seq 0 16)) fips197_pt = [0x69;0xc4;0xe0;0xd8;0x6a;0x7b;0x04;0x30;0xd8;0xcd;0xb7;0x80;0x70;0xb4;0xc5;0x5a] /\
+  aes_enc (map N.of_nat (seq 0 24)) fips197_pt = [0xdd;0xa9;0x7c;0xa4;0x86;0x4c;0xdf;0xe0;0x6e;0xaf;0x70;0xa0;0xec;0x0d;0x71;0x91] /\
+  aes_enc (map N.of_nat (seq 0 32)) fips197_pt = [0x8e;0xa2;0xb7;0xca;0x51;0x67;0x45;0xbf;0xea;0xfc;0x49;0x90;0x4b;0x49;0x60;0x89] /\
+  aes_dec (map N.of_nat (seq 0 16)) [0x69;0xc4;0xe0;0xd8;0x6a;0x7b;0x04;0x30;0xd8;0xcd;0xb7;0x80;0x70;0xb4;0xc5;0x5a] = fips197_pt /\
+  aes_dec (map N.of_nat (seq 0 24)) [0xdd;0xa9;0x7c;0xa4;0x86;0x4c;0xdf;0xe0;0x6e;0xaf;0x70;0xa0;0xec;0x0d;0x71;0x91] = fips197_pt /\
+  aes_dec (map N.of_nat (seq 0 32)) [0x8e;0xa2;0xb7;0xca;0x51;0x67;0x45;0xbf;0xea;0xfc;0x49;0x90;0x4b;0x49;0x60;0x89] = fips197_pt /\
+  last (key_expansion [0x2b;0x7e;0x15;0x16;0x28;0xae;0xd2;0xa6;0xab;0xf7;0x15;0x88;0x09;0xcf;0x4f;0x3c]) [] =
+    [0xd0;0x14;0xf9;0xa8;0xc9;0xee;0x25;0x89;0xe1;0x3f;0x0c;0xc8;0xb6;0x63;0x0c;0xa6].
+Proof. exact aes_kat_fips197. Qed.
+(* NIST SP 800-38A F.2.1 (CBC-AES128.Encrypt, first two blocks) through the OBJECT model, with a refused second set_key between
+   the two encrypt calls, and F.2.2 back through a second object *)
+Example aes_cbc_object_sp800_38a :
+  let key := [0x2b;0x7e;0x15;0x16;0x28;0xae;0xd2;0xa6;0xab;0xf7;0x15;0x88;0x09;0xcf;0x4f;0x3c] in
+  let iv := map N.of_nat (seq 0 16) in
+  let p1 := [0x6b;0xc1;0xbe;0xe2;0x2e;0x40;0x9f;0x96;0xe9;0x3d;0x7e;0x11;0x73;0x93;0x17;0x2a] in
+  let p2 := [0xae;0x2d;0x8a;0x57;0x1e;0x03;0xac;0x9c;0x9e;0xb7;0x6f;0xac;0x45;0xaf;0x8e;0x51] in
+  let c1 := [0x76;0x49;0xab;0xac;0x81;0x19;0xb2;0x46;0xce;0xe9;0x8e;0x9b;0x12;0xe9;0x19;0x7d] in
+  let c2 := [0x50;0x86;0xcb;0x9b;0x50;0x72;0x19;0xee;0x95;0xdb;0x11;0x3a;0x91;0x76;0x78;0xb2] in
+  aes_obj_run 16 [OKey key; OIv iv; OEnc p1; OKey (repeat 7 16); OEnc p2] =
+    [(StOk, []); (StOk, []); (StOk, c1); (StKeyTwice, []); (StOk, c2)] /\
+  aes_obj_run 16 [OKey key; OIv iv; ODec (c1 ++ c2)] = [(StOk, []); (StOk, []); (StOk, p1 ++ p2)].
+Proof. vm_compute. split; reflexivity. Qed.
+(* a cookie through the model with the real cipher and HMAC-SHA1: 5-byte text -> 32-byte body + 20; read back with another IV;
+   one flipped bit is refused *)
+Example session_cookie_real_cipher_nonvacuous :
+  let ck := map N.of_nat (seq 0 16) in let mk := repeat 11 20 in
+  let mac := hmac_spec 64 sha1_spec mk in
+  let c := fst (ac_encrypt mac (aes_E ck) (map N.of_nat (seq 1 16)) [104;101;108;108;111]) in
+  length c = 52%nat /\
+  fst (ac_decrypt mac 20 (aes_D ck) (repeat 7 16) c) = Some [104;101;108;108;111] /\
+  fst (ac_decrypt mac 20 (aes_D ck) (repeat 7 16) (removelast c ++ [N.lxor (last c 0) 1])) = None.
+Proof. vm_compute. repeat split; reflexivity. Qed.
+
+(* ---------------------------------------------------------------------------------------------
+   9. SHA-2 written from FIPS 180-4 (coq/C16/Sha2Defs.v; round constants and initial values COMPUTED from their definition:
+      fractional parts of cube / square roots of the first primes).  The OpenSSL-backed wrappers ssl_sha224 .. ssl_sha512 and the
+      hmac objects over them are run against these functions (correspondence on a fixed sample of the dg / hm lines).
+      Known answers: FIPS 180 "abc" for the four functions, the empty message, a 112-byte message (two SHA-512 blocks of padding
+      boundary), RFC 4231 test case 1 (HMAC) through hmac_spec.
+   --------------------------------------------------------------------------------------------- *)
+Example sha2_constants_by_definition :
+  nth 0 K256 0 = 0x428a2f98 /\ nth 63 K256 0 = 0xc67178f2 /\ nth 0 H256 0 = 0x6a09e667 /\ nth 7 H256 0 = 0x5be0cd19 /\
+  nth 0 H224 0 = 0xc1059ed8 /\ nth 0 K512 0 = 0x428a2f98d728ae22 /\ nth 79 K512 0 = 0x6c44198c4a475817 /\
+  nth 0 H512 0 = 0x6a09e667f3bcc908 /\ nth 0 H384 0 = 0xcbbb9d5dc1059ed8 /\ length K256 = 64%nat /\ length K512 = 80%nat.
+Proof. vm_compute. repeat split; reflexivity. Qed.
+Example sha2_kat_fips180 :
+  sha224_spec [97;98;99] = [35;9;125;34;52;5;216;34;134;66;164;119;189;162;85;179;42;173;188;228;189;160;179;247;227;108;157;167] /\
+  sha224_spec [] = [209;74;2;140;42;58;43;201;71;97;2;187;40;130;52;196;21;162;176;31;130;142;166;42;197;179;228;47] /\
+  sha256_spec [97;98;99] = [186;120;22;191;143;1;207;234;65;65;64;222;93;174;34;35;176;3;97;163;150;23;122;156;180;16;255;97;242;0;21;173] /\
+  sha256_spec [] = [227;176;196;66;152;252;28;20;154;251;244;200;153;111;185;36;39;174;65;228;100;155;147;76;164;149;153;27;120;82;184;85] /\
+  sha384_spec [97;98;99] = [203;0;117;63;69;163;94;139;181;160;61;105;154;198;80;7;39;44;50;171;14;222;209;99;26;139;96;90;67;255;91;237;128;134;7;43;161;231;204;35;88;186;236;161;52;200;37;167] /\
+  sha384_spec [] = [56;176;96;167;81;172;150;56;76;217;50;126;177;177;227;106;33;253;183;17;20;190;7;67;76;12;199;191;99;246;225;218;39;78;222;191;231;111;101;251;213;26;210;241;72;152;185;91] /\
+  sha512_spec [97;98;99] = [221;175;53;161;147;97;122;186;204;65;115;73;174;32;65;49;18;230;250;78;137;169;126;162;10;158;238;230;75;85;211;154;33;146;153;42;39;79;193;168;54;186;60;35;163;254;235;189;69;77;68;35;100;60;232;14;42;154;201;79;165;76;164;159] /\
+  sha512_spec [] = [207;131;225;53;126;239;184;189;241;84;40;80;214;109;128;7;214;32;228;5;11;87;21;220;131;244;169;33;211;108;233;206;71;208;209;60;93;133;242;176;255;131;24;210;135;126;236;47;99;185;49;189;71;65;122;129;165;56;50;122;249;39;218;62] /\
+  sha512_spec [97;98;99;100;101;102;103;104;98;99;100;101;102;103;104;105;99;100;101;102;103;104;105;106;100;101;102;103;104;105;106;107;101;102;103;104;105;106;107;108;102;103;104;105;106;107;108;109;103;104;105;106;107;108;109;110;104;105;106;107;108;109;110;111;105;106;107;108;109;110;111;112;106;107;108;109;110;111;112;113;107;108;109;110;111;112;113;114;108;109;110;111;112;113;114;115;109;110;111;112;113;114;115;116;110;111;112;113;114;115;116;117] = [142;149;155;117;218;227;19;218;140;244;247;40;20;252;20;63;143;119;121;198;235;159;127;161;114;153;174;173;182;136;144;24;80;29;40;158;73;0;247;228;51;27;153;222;196;181;67;58;199;211;41;238;182;221;38;84;94;150;229;91;135;75;233;9] /\
+  sha256_spec [97;98;99;100;101;102;103;104;98;99;100;101;102;103;104;105;99;100;101;102;103;104;105;106;100;101;102;103;104;105;106;107;101;102;103;104;105;106;107;108;102;103;104;105;106;107;108;109;103;104;105;106;107;108;109;110] = [7;140;13;252;50;120;253;119;89;146;15;92;202;148;198;213;93;178;198;148;81;15;110;38;168;254;92;91;80;164;244;23] /\
+  hmac_spec 64 sha256_spec (repeat 11 20) [72;105;32;84;104;101;114;101] = [176;52;76;97;216;219;56;83;92;168;175;206;175;11;241;43;136;29;194;0;201;131;61;167;38;233;55;108;46;50;207;247] /\
+  hmac_spec 128 sha512_spec (repeat 11 20) [72;105;32;84;104;101;114;101] = [135;170;124;222;165;239;97;157;79;240;180;36;26;29;108;176;35;121;244;226;206;78;194;120;122;208;179;5;69;225;124;222;218;168;51;183;214;184;167;2;3;139;39;78;174;163;244;228;190;157;145;78;235;97;241;112;46;105;108;32;58;18;104;84] /\
+  hmac_spec 128 sha384_spec (repeat 170 131) [72;105;32;84;104;101;114;101] = [52;114;240;129;120;75;114;122;137;157;241;252;18;164;121;151;53;156;205;212;111;108;117;157;72;245;193;133;226;168;85;220;65;69;13;163;81;183;160;134;41;62;56;34;150;146;141;96].
 Proof. vm_compute. repeat split; reflexivity. Qed.
